@@ -4,7 +4,9 @@
   One model step = one access to a shared cell (`high`, `low`, a buffer slot) exactly in
   the order the C code performs them, plus the API call/return events the harness logs.
   Any number of threads (`Nat → Pc`), any capacity `2^k`, unbounded operation counts.
-  64-bit wrap-around of `high`/`low` is not modelled (2^64 operations are unreachable).
+  `high` / `low` are unbounded naturals here; the 64-bit machine `Model/RingW.lean` (the same
+  steps on `uint64_t` values, any starting value) is proved to refine this model
+  (`Props/C16Wrap.lean`), and it is the machine the driver validates the logs against.
 
   C code being modelled (trypush):
       low  = load(rb->low);  high = load(rb->high);  index = high & mask;
